@@ -289,6 +289,10 @@ def build_units(tier: str) -> list[Unit]:
             units.append(u)
     units.append(Unit("session-invariant/respond", session_harness, max_paths=20000))
     units.append(Unit("transport/handle_request", transport_harness))
+    # the connection loop around handle_request (unit of C19): it ends only on end of stream,
+    # also when a response is suppressed (None) - a tester is not disconnected by any request
+    from . import c19
+    units.append(Unit("transport/handle_client", c19.server_harness))
     return units
 
 
@@ -301,6 +305,9 @@ def native_replay(unit: str, obligation: str, model: dict) -> tuple[bool, str]:
     if unit.startswith("parse-total/"):
         from . import c01
         return c01.native_parse_total(unit, model)
+    if unit.startswith("transport/handle_client"):
+        from . import c19
+        return c19.native_server_messages()
     sv = SV()
     from gallia.services.uds import helpers
     from gallia.services.uds.core import service as S
